@@ -269,12 +269,12 @@ func CoerceString(v Value) string {
 }
 
 // formatFloat formats the floating point value v, whose float64 value is f.
-// Integral values that every integer type could also hold exactly are written
-// like integers ("1000000", not "1e+06"), so that a number prints the same
-// whichever Go type carries it.
+// Integral values that an integer type could hold as well are written like
+// integers ("1000000", not "1e+06"; "1152921504606846976" for 2^60), so that
+// a number prints the same whichever Go type carries it.
 func formatFloat(f float64, v Value) string {
-	if f == math.Trunc(f) && math.Abs(f) <= 1<<53 {
-		return strconv.FormatFloat(f, 'f', -1, 64)
+	if f == math.Trunc(f) && math.Abs(f) < 1<<64 {
+		return strconv.FormatFloat(f, 'f', 0, 64)
 	}
 	return fmt.Sprintf("%v", v)
 }
